@@ -35,8 +35,8 @@ def completed(sc, out):
 
 
 def sub_scenario(sc, x, idx):
-    v = dict(sc)
-    S.set_data(v, x[idx])
+    v = {k: w for k, w in sc.items() if k not in ("layout", "history", "sibling", "same_as_first")}
+    S.set_data(v, np.ascontiguousarray(x[idx]))
     return v
 
 
@@ -125,6 +125,16 @@ def oracle(sc, res, seed=0):
             if not ok:
                 fails.append(Fail("C06/%s/subset" % est, "removing other channels changes an entry",
                                   {"subset": [int(p) for p in sub], "relative_deviation": e}, "unchanged entries"))
+    # ---- memory layout: the same values Fortran-ordered / strided / as a transposed view
+    if sc.get("layout") not in (None, "C"):
+        v = dict(sc)
+        v["layout"] = "C"
+        rc = S.run_scenario(v)
+        if rc["err"] is None:
+            ok, e = close_arr(mat_of(sc, rc), out)
+            if not ok:
+                fails.append(Fail("C06/%s/layout" % est, "matrix depends on the memory layout of the input (%s vs C order)" % sc["layout"],
+                                  {"relative_deviation": e}, "same matrix as for the C-ordered copy"))
     # ---- flattening extra leading dimensions
     if x.ndim > 2 and est != "welch":
         rf = S.run_scenario(sub_scenario(sc, x2, slice(None)))
@@ -140,20 +150,33 @@ def gen_all(ctx):
     rng = ctx.rng
     q = ctx.quick
     scs = corpus_scenarios("C06")
-    for _ in range(ctx.scale(30, 200)):
+    for _ in range(ctx.scale(24, 200)):
         scs.append(S.gen_scenario(rng, "periodogram_csd", nmax=32 if q else 96, max_ch=5 if q else 6))
-    for _ in range(ctx.scale(20, 120)):
+    for _ in range(ctx.scale(14, 120)):
         scs.append(S.gen_scenario(rng, "multi_taper_csd", nmax=20 if q else 48,
                                   max_ch=rng.choice([2, 3, 3, 4]) if q else rng.choice([3, 4, 5, 6])))
     for _ in range(ctx.scale(16, 120)):
         scs.append(S.gen_welch(rng))
+    # Fortran-ordered / strided / transposed-view inputs with two or more leading dimensions > 1
+    for _ in range(ctx.scale(6, 40)):
+        est = rng.choice(["multi_taper_csd", "multi_taper_csd", "periodogram_csd"])
+        scs.append(S.gen_scenario(rng, est, nmax=(10 if est == "multi_taper_csd" else 16) if q else 24,
+                                  lead=rng.choice([[2, 2], [2, 3], [3, 2]]) if q else rng.choice([[2, 2], [2, 3], [3, 2], [2, 1, 3]]),
+                                  layout=rng.choice(S.LAYOUTS)))
+    # option-sibling sequences
+    for _ in range(ctx.scale(2, 12)):
+        scs += S.gen_siblings(rng, "multi_taper_csd", nmax=14 if q else 32, max_ch=2 if q else 3, opt="low_bias")
+    for _ in range(ctx.scale(3, 20)):
+        scs += S.gen_siblings(rng, rng.choice(["multi_taper_csd", "multi_taper_csd", "periodogram_csd"]),
+                              nmax=14 if q else 32, max_ch=2 if q else 3)
     for sc in scs:
-        if sc["est"] != "welch" and len(sc["shape"]) == 2 and not sc.get("use_sk") and rng.random() < 0.25:
+        if sc["est"] != "welch" and len(sc["shape"]) == 2 and not sc.get("use_sk") and not sc.get("sibling") \
+                and not sc.get("layout") and rng.random() < 0.25:
             sc["via_get_spectra"] = True        # the same estimator reached through get_spectra(method=...)
     # paired variants as K cases of their own: a permuted and a flattened copy of some scenarios
     extra = []
     for sc in scs:
-        if sc["est"] == "welch" or rng.random() > 0.25:
+        if sc["est"] == "welch" or sc.get("sibling") or rng.random() > 0.25:
             continue
         x = S.sc_data(sc)
         x2 = x.reshape(-1, x.shape[-1])
@@ -175,10 +198,17 @@ def run(ctx):
         a, b = validate_fft(c.res["rec"])
         nv_ok += a
         nv_bad += b
-        for f in oracle(c.sc, c.res, seed=i):
+        try:
+            fl = oracle(c.sc, c.res, seed=i)
+        except Exception as e:  # noqa
+            fl = [Fail("C06/%s/oracle-exception" % c.sc["est"], "the oracle could not judge this call: %r" % e, repr(e), "a verdict")]
+        for f in fl:
             f.replay = {"entry_point": "nitime.algorithms.spectral." + ("get_spectra" if c.sc["est"] == "welch" else c.sc["est"]),
                         "model_disagrees": id(c) in bad, "case_index": i}
-            ctx.report_fail(f, c)
+            ctx.report_fail(f, S.with_run_history(cases, i))
+    for f, c in S.purity_fails("C06", cases, ctx.scale(8, 50)):
+        f.replay = {"entry_point": "nitime.algorithms.spectral." + c.replay["scenario"]["est"]}
+        ctx.report_fail(f, c)
     ctx.extra["model_impl_disagreements"] = len(bad)
     ctx.extra["fft_contract_validations"] = {"ok": nv_ok, "failed": nv_bad}
     ctx.extra["rule"] = ("seeded generator over estimator (periodogram_csd, multi_taper_csd fixed/adaptive, get_spectra Welch) x "
@@ -205,9 +235,21 @@ def replay(ctx, path):
     if sc is None:
         print(json.dumps({"note": "no scenario in replay file (broken-lemma record)", "lemmas": d.get("lemmas")}, indent=1)[:3000])
         return 1
-    res = S.run_scenario(sc)
+    want_key = d.get("finding_key") or ""
+    if want_key.endswith("/history-dependence"):
+        hist = sc.get("history") or []
+        first = S.run_scenario(hist[0]) if hist else S.run_scenario(sc)
+        for h in hist[1:]:
+            S.run_scenario(h)
+        again = S.run_scenario(sc)
+        same = S.same_result(first, again)
+        print(json.dumps({"scenario": {k: v for k, v in sc.items() if k not in ("data", "history")},
+                          "calls_before": len(hist), "identical_result": same}, indent=1))
+        return 0 if same else 1
+    res = S.run_scenario(sc, with_history=True)
     fails = oracle(sc, res, seed=d.get("case_index", 0))
-    print(json.dumps({"scenario": {k: v for k, v in sc.items() if k != "data"}, "shape": sc["shape"],
+    print(json.dumps({"scenario": {k: v for k, v in sc.items() if k not in ("data", "history")}, "shape": sc["shape"],
+                      "calls_before": len(sc.get("history") or []),
                       "fails": [{"key": f.key, "what": f.what, "observed": f.observed, "required": f.required} for f in fails]},
                      indent=1, default=str))
     return 1 if fails else 0
